@@ -26,6 +26,14 @@ FT = {
 }
 
 
+R_NAMES = ["r", "rate", "r#ref", "right", "r#type", "r_", "rr", "r0", "rx9", "radius", "row", "r#loop", "reg"]
+
+
+def fname(spec, i):
+    """Field names: f0, f1, .. or - spec["names"] == "r" - names beginning with `r` (some of them raw identifiers)."""
+    return R_NAMES[i % len(R_NAMES)] if spec.get("names") == "r" else f"f{i}"
+
+
 def gen_spec(rng, kind=None):
     kind = kind or rng.choice(["struct", "struct", "enum"])
     generic = rng.random() < 0.25
@@ -48,7 +56,13 @@ def gen_spec(rng, kind=None):
                     f["ignore"] = True
         variants.append({"style": style, "fields": fs})
     generic = any(f["ft"] in ("T", "optT") for v in variants for f in v["fields"])
-    return {"kind": kind, "variants": variants, "generic": generic, "entry": rng.choice(["attr", "derive"])}
+    # `bound(..)` (which changes nothing) written in the same attribute as the flag, before or after it, or alone
+    for v in variants:
+        for f in v["fields"]:
+            if rng.random() < 0.2:
+                f["bound"] = rng.choice(["pre", "post"])
+    return {"kind": kind, "variants": variants, "generic": generic, "entry": rng.choice(["attr", "derive"]),
+            "names": "r" if rng.random() < 0.25 else None}
 
 
 def type_text(spec, twin):
@@ -67,14 +81,16 @@ def type_text(spec, twin):
                 continue
             a = ""
             if not twin:
-                if f["ignore"]:
-                    a = "#[debug(ignore)] "
-                if f["transparent"]:
-                    a = "#[debug(transparent)] "
+                flag = "ignore" if f["ignore"] else ("transparent" if f["transparent"] else None)
+                args = [flag] if flag else []
+                if f.get("bound"):
+                    args = ["bound(..)"] + args if f["bound"] == "pre" else args + ["bound(..)"]
+                if args:
+                    a = f"#[debug({', '.join(args)})] "
             if f["ft"] in ("T", "optT"):
                 uses_t = True
             pk = "pub " if spec["kind"] == "struct" else ""
-            fs.append((f"{a}{pk}f{i}: {FT[f['ft']][0]}") if v["style"] == "named" else f"{a}{pk}{FT[f['ft']][0]}")
+            fs.append((f"{a}{pk}{fname(spec, i)}: {FT[f['ft']][0]}") if v["style"] == "named" else f"{a}{pk}{FT[f['ft']][0]}")
         if v["style"] == "named":
             bodies.append("{ " + ", ".join(fs) + " }")
         elif v["style"] == "tuple":
@@ -104,7 +120,7 @@ def ctor(spec, vi, which, twin, prefix=""):
             x = prefix + x
         vals.append((i, x))
     if v["style"] == "named":
-        return head + " { " + ", ".join(f"f{i}: {x}" for i, x in vals) + " }"
+        return head + " { " + ", ".join(f"{fname(spec, i)}: {x}" for i, x in vals) + " }"
     if v["style"] == "tuple":
         return head + "(" + ", ".join(x for _, x in vals) + ")"
     return head
@@ -113,7 +129,7 @@ def ctor(spec, vi, which, twin, prefix=""):
 def render(spec, control=False):
     dx, _ = type_text(spec, False)
     if control:
-        dx = re.sub(r"#\[debug\([a-z]+\)\] ", "", dx)
+        dx = re.sub(r"#\[debug\([^\]]*\)\] ", "", dx)
         dx = dx.replace("#[::derive_ex::derive_ex(Debug)]", "#[derive(Debug)]").replace("#[derive(::derive_ex::Ex)]\n#[derive_ex(Debug)]", "#[derive(Debug)]")
     tw, tw_generic = type_text(spec, True)
     inner_dx = ("#[derive(Debug)]" if control else "#[::derive_ex::derive_ex(Debug)]") + "\npub struct Inner { pub a: u8, pub b: f64 }"
@@ -178,6 +194,18 @@ def core():
                 specs.append({"kind": "struct", "variants": [{"style": style, "fields": fs}], "generic": False,
                               "entry": "attr" if k % 2 else "derive"})
     specs.append({"kind": "struct", "variants": [{"style": "unit", "fields": []}], "generic": False, "entry": "attr"})
+    # field names beginning with `r` (plain and raw); flags sharing an attribute with bound(..)
+    for style in ("named", "tuple"):
+        for bnd in (None, "pre", "post"):
+            k += 1
+            fs = [fld("u8"), fld("str", ignore=True), fld("i32"), fld("opt", ignore=True), fld("vec")]
+            for f in fs:
+                f["bound"] = bnd if f["ignore"] else None
+            specs.append({"kind": "struct", "variants": [{"style": style, "fields": fs}], "generic": False, "entry": "attr" if k % 2 else "derive", "names": "r"})
+            ft = [fld("u8", ignore=True), fld("inner", transparent=True), fld("i32", ignore=True)]
+            ft[1]["bound"] = bnd
+            specs.append({"kind": "enum", "variants": [{"style": "unit", "fields": []}, {"style": style, "fields": ft}], "generic": False,
+                          "entry": "derive" if k % 2 else "attr", "names": "r"})
     # twelve fields (names / indices whose text order differs from the declaration order), some ignored
     cyc = ["u8", "i32", "str", "opt", "tup", "sh"]
     for style in ("named", "tuple"):
